@@ -465,12 +465,12 @@ def finish(pid, tier, seed, results, wall, mod):
         print(f"  obligation {v['obligation']}: {v['what']}")
     for e in errors:
         print(f"HARNESS-ERROR property={pid}: {e}", file=sys.stderr)
-    # the changed code uses something the symbolic engine does not model: the obligations of those jobs are undecided
-    # (exit 3).  Before giving up, the check's concrete replay family (the same functions that confirm solver models) is
+    # the changed code uses something the symbolic engine does not model, takes a shape the harness cannot interpret, or a
+    # solver model could not be reproduced: the obligations of those jobs are undecided (exit 3).  Before giving up, the check's concrete replay family (the same functions that confirm solver models) is
     # run on the real code with its built-in default inputs; a reproduced violation is reported as such.  This decides
     # nothing when it finds nothing.
     fallback_note = None
-    if not violations and any("not support" in e or "not modelled" in e for e in errors):
+    if not violations and errors:
         ran = 0
         for fn, kw in getattr(mod, "FALLBACK", []):
             try:
